@@ -88,10 +88,13 @@ func parsimonyUPPASS(cur, prev *tree.Node, a align.Alignment, seqs []*AncestralS
 				possibilities = align.IupacCode[c]
 			} else {
 				if c == align.ALL_AMINO {
-					for k := range charToIndex {
-						possibilities = append(possibilities, k)
+					// all amino acids, i.e. the whole alphabet except the two
+					// last characters ('-' and '*') added to it
+					for k, idx := range charToIndex {
+						if idx < len(charToIndex)-2 {
+							possibilities = append(possibilities, k)
+						}
 					}
-					possibilities = possibilities[:len(possibilities)-2]
 				} else {
 					possibilities = append(possibilities, c)
 				}
